@@ -63,6 +63,22 @@ Case kinds
                  LOGICAL arrays; coordinates of encoded histories rounded to binary32 = VR FL of Graphic Data, table passed by
                  the harness); the memory layout / dtype of the ndarray is outside the model (its input is the logical
                  array) - that dimension is judged by the oracle and by the model comparison on the logical array
+  acc_meas     : THE MEASUREMENTS IN FULL (TID 300 behind get_measurements): every measurement of a group is constructed
+                 with a unit of its own, an optional QUALIFIER (Numeric Value Qualifier Code Sequence), nested tracking
+                 identifier, method, derivation, finding sites, referenced images (codes drawn from the pools of the
+                 group-level fields, in scheme versions / other schemes / long code values; several measurements of a group
+                 share a name and differ in qualifier / unit only) x 10 histories x the three queries WITH AND WITHOUT
+                 FILTERS.  Observed per returned group: tracking identifier, get_measurements() and get_measurements(name),
+                 each measurement through every accessor of sr.Measurement (name, value, unit, qualifier, derivation,
+                 method, finding_sites, referenced_images) + the child content of its NUM item, item by item.  Model:
+                 run_meas (records: Measurement.__init__ skeleton, Measurement.from_sequence rebuilding the item);
+                 oracle: the records
+  acc_meas_tree: the same observation on NUM items as other writers leave them, in memory (qualifier dropped / set /
+                 replaced, other unit, child content dropped, a second derivation / method / finding site child in front
+                 or behind, a second NUM item of the same name with another qualifier; measurement options of report_opts:
+                 algorithm identification, value map) and on the shipped documents; model: run_tree_meas on the rendered
+                 tree (unit and qualifier of a NUM item are rendered as two pseudo children); oracle: a raw pydicom walk
+                 over the NUM items of each group
 In every kind a code returned by an accessor is numbered by what it compares EQUAL to (both operand orders,
 Code and CodedConcept) among the variants of its code value, not only by its attributes (code_id).
 """
@@ -96,6 +112,10 @@ ORACLE_PREMISES = [
     'Graphic Data (0070,0022) of SCOORD and SCOORD3D items has VR FL: after DICOM encoding each coordinate is the nearest '
     'binary32 number (`trunc` of the geometry theorems, passed as a table by the harness); the JSON model is exact; '
     'numpy ndarray.flatten() / tolist() / reshape enumerate the LOGICAL array whatever its memory layout (the model input)',
+    'ContentSequence.from_sequence copies the child content of a NUM item item for item; the unit and the qualifier of a NUM '
+    'item (attributes, not content items) are carried in the item model as two pseudo children with reserved names '
+    '(modelling device) - that the implementation stores them in MeasurementUnitsCodeSequence / '
+    'NumericValueQualifierCodeSequence is checked by the raw-walk oracle of acc_meas_tree, not proved',
 ]
 MODELLED = ('sr/utils.find_content_items (non-recursive); sr/templates._count_roi_items, _contains_planar_rois, '
             '_contains_volumetric_rois, _get_roi_reference_items, _contains_code/uidref/image_items, '
@@ -111,10 +131,14 @@ MODELLED = ('sr/utils.find_content_items (non-recursive); sr/templates._count_ro
             '_ROIMeasurementsAndQualitativeEvaluations.__init__, content.py ReferencedSegment.__init__ / '
             'VolumeSurface.__init__ (sources, number of graphic data items per graphic type) (run_construct_*); '
             'value_types.ScoordContentItem / Scoord3DContentItem: GraphicData = row-major flattening of the logical array, '
-            'value = reshape(-1, d) (run_accessors_geom; shape checks, coplanarity and the ndarray memory layout not modelled)')
+            'value = reshape(-1, d) (run_accessors_geom; shape checks, coplanarity and the ndarray memory layout not modelled); '
+            'templates.Measurement.__init__ (item skeleton: NUM item with unit / qualifier + tracking identifier, method, '
+            'derivation, finding sites, referenced images), Measurement.from_sequence (rebuild from name, value, unit, '
+            'qualifier + copied child content), the accessors unit / qualifier / derivation / method / finding_sites / '
+            'referenced_images, get_measurements as list of rebuilt measurements (run_meas, run_tree_meas)')
 STRATA = ['report_mem', 'report_doc', 'report_file', 'report_notid', 'acc', 'refuse', 'tree', 'fixture',
           'report_codes', 'acc_codes', 'acc_tree', 'acc_fixture', 'report_opts', 'acc_opts', 'construct',
-          'acc_values', 'acc_num_tree', 'acc_geom']
+          'acc_values', 'acc_num_tree', 'acc_geom', 'acc_meas', 'acc_meas_tree']
 RULE = ('reports of 0..5 groups (planar: 2D region of each graphic type, 3D region, segmentation frame, region in '
         'space; volumetric: 1..3 regions, segment with image/series sources, volume surface, region in space; '
         'image groups), values from small pools so that collisions between groups happen; per report 10 sampled '
@@ -141,6 +165,12 @@ RULE = ('reports of 0..5 groups (planar: 2D region of each graphic type, 3D regi
         'acc_geom: 1..4 groups biased to coordinate-bearing references, every region with random coordinates (dyadic, '
         'some not representable in binary32, ints) of the row count its graphic type asks for (3D polygons closed and '
         'coplanar), as ndarray in one of 13 memory layouts x 6 dtypes, surfaces packed 5 ways, x 8 histories. '
+        'acc_meas: 1..4 groups of 1..3 measurements from 3 names, each with unit (3 values), qualifier (p 0.5), nested '
+        'tracking identifier / method / derivation (p 0.3 each), 0..2 finding sites, 0..2 referenced images, a quarter of '
+        'the codes in another scheme version / scheme, x 10 histories x {no filter, 2 sampled filter sets} x by-name argument; '
+        'acc_meas_tree: 1..3 groups, 0..3 of 6 rewritings of a NUM item (drop / set qualifier, set unit, drop child content, '
+        'add a child that mostly duplicates an existing derivation / method / site, duplicate the NUM item with another '
+        'qualifier), in memory / from_sequence copy, + the two shipped documents. '
         'non-trivial = at least two groups and a non-empty, non-total answer or a refusal; distinct by case hash')
 NOT_EXECUTED = []
 EXHAUSTIVE = {'quick': False, 'thorough': False}
@@ -173,7 +203,14 @@ RESERVED = {  # id -> (value, scheme, meaning)
     15: ('121232', 'DCM', 'Source Series for Segmentation'), 16: ('260753009', 'SCT', 'Source'),
     17: ('130400', 'DCM', 'Geometric purpose of region'), 18: ('C2348792', 'UMLS', 'Time Point'),
     19: ('126072', 'DCM', 'Time Point Type'), 20: ('C67447', 'NCIt', 'Activity Session'),
+    # (21 / 22 are the pseudo children that carry unit / qualifier of a rendered NUM item: C16_Model.cUnitAttr / cQualAttr)
+    23: ('121401', 'DCM', 'Derivation'), 24: ('121112', 'DCM', 'Source of Measurement'),
 }
+UNIT_ATTR, QUAL_ATTR = 21, 22
+VT_TAG = {'CONTAINER': 0, 'CODE': 1, 'TEXT': 2, 'UIDREF': 3, 'NUM': 4, 'IMAGE': 5, 'SCOORD': 6, 'SCOORD3D': 7,
+          'COMPOSITE': 8}        # C16_Model.vt_tag (anything else: 9)
+RT_TAG = {None: 0, 'CONTAINS': 1, 'HAS OBS CONTEXT': 2, 'HAS CONCEPT MOD': 3, 'SELECTED FROM': 4,
+          'HAS PROPERTIES': 5, 'INFERRED FROM': 6}      # C16_Model.rt_tag
 RES_BY_KEY = {(v[0], v[1]): k for k, v in RESERVED.items()}
 REFTYPES = [9, 10, 11, 12, 13]
 USER_SCHEME = '99VERIF'
@@ -587,6 +624,84 @@ def gen_cases(rng, tier):
     cases += _gen_construct_cases(rng, tier)
     cases += _gen_value_cases(rng, tier)
     cases += _gen_geom_cases(rng, tier)
+    cases += _gen_meas_cases(rng, tier)
+    return cases
+
+
+# ---- measurements in full (TID 300: unit, qualifier, derivation, method, finding sites, referenced images) ------
+MEAS_HIST = ['mem', 'parsed', 'doc', 'file', 'mem', 'dcm', 'json', 'file2', 'dcm_implicit', 'parsed']
+MEAS_MUTS = ['drop_qual', 'set_qual', 'set_qual', 'set_unit', 'drop_content', 'add_child', 'add_child', 'dup_num',
+             'dup_num']
+
+
+def _mcode(rng, pool, p_variant=0.25):
+    """a code of the pool, sometimes in another scheme version / scheme designator (every third value is a long
+    code value)"""
+    base = rng.choice(pool)
+    return _variant(rng, base) if rng.random() < p_variant else base
+
+
+def _meas_detail(rng, p_qual=0.5):
+    """what sr.Measurement is constructed with besides name and value: unit, qualifier (Numeric Value Qualifier),
+    nested tracking identifier [identifier, uid], method, derivation, finding sites, referenced images; the code pools
+    overlap those of the group-level fields (finding 110.., method 120.., sites 130..)"""
+    opt = lambda pool, p: _mcode(rng, pool) if rng.random() < p else None  # noqa: E731
+    return {'unit': _mcode(rng, [200, 201, 202]),
+            'qual': opt([210, 211, 212, 110], p_qual),
+            'track': [rng.randint(1000, 1004), rng.randint(1, 4)] if rng.random() < 0.3 else None,
+            'method': opt([120, 121, 122], 0.3), 'deriv': opt([220, 221, 110, 210], 0.3),
+            'sites': [_mcode(rng, [130, 131, 132, 133, 134]) for _ in range(rng.choice([0, 0, 1, 2]))],
+            'imgs': [_src(rng) for _ in range(rng.choice([0, 0, 1, 2]))]}
+
+
+def _meas_group(rng, g):
+    """1..3 measurements from few names (so that several measurements of a group share a name and differ in
+    qualifier / unit only), each with its details"""
+    g = dict(g)
+    names = [rng.randint(140, 142) for _ in range(rng.choice([1, 2, 2, 3]))]
+    g['meas'] = [[n, rng.choice([0, 0, rng.randint(-5, 40)])] for n in names]
+    g['md'] = [_meas_detail(rng) for _ in names]
+    return g
+
+
+def _gen_meas_cases(rng, tier):
+    n = {'quick': 36, 'thorough': 360, 'search': 70}[tier]
+    cases = []
+    for j in range(n):
+        ng = rng.choice([1, 2, 3, 4])
+        notid = rng.choice([0.0, 0.0, 1.0])
+        groups = [_meas_group(rng, _group(rng, i, notid=notid, allow_ris=False)) for i in range(ng)]
+        for g in groups:        # untyped groups stay classifiable
+            if not g['has_tid'] and g['ref'][0] == 'rs' and len(g['ref'][1]) < 2:
+                g['ref'][1].append([g['ref'][1][0][0]] + _src(rng))
+        allnames = [m[0] for g in groups for m in g['meas']]
+        fl = _filters(rng, groups, 9)
+        cases.append({'kind': 'acc_meas', 'groups': groups, 'io': MEAS_HIST[j % len(MEAS_HIST)],
+                      'pre': rng.choice(['person', 'device']), 'hd_codes': rng.random() < 0.5,
+                      'filters': [{}] + rng.sample(fl[1:], 2),
+                      'mname': rng.choice(allnames + [149]) if rng.random() < 0.8 else None})
+    for j in range(n // 2):
+        ng = rng.choice([1, 2, 3])
+        groups = []
+        for i in range(ng):
+            g = _group(rng, i, notid=rng.choice([0.0, 0.0, 1.0]), allow_ris=False)
+            if not g['meas'] or rng.random() < 0.7:
+                g = _meas_group(rng, g)
+            else:               # the measurement options of report_opts (algorithm identification, value map ...)
+                g = _opts_group(rng, g)
+            if not g['has_tid'] and g['ref'][0] == 'rs' and len(g['ref'][1]) < 2:
+                g['ref'][1].append([g['ref'][1][0][0]] + _src(rng))
+            groups.append(g)
+        muts = []
+        for _ in range(rng.choice([0, 1, 2, 3])):
+            gi = rng.randrange(ng)
+            muts.append([rng.choice(MEAS_MUTS), gi, rng.randrange(len(groups[gi]['meas'])), rng.randint(0, 10 ** 6)])
+        allnames = [m[0] for g in groups for m in g['meas']]
+        cases.append({'kind': 'acc_meas_tree', 'groups': groups, 'io': rng.choice(['mem', 'mem', 'parsed']),
+                      'pre': 'person', 'hd_codes': False, 'mmuts': muts, 'filters': [{}] + _filters(rng, groups, 6)[1:2],
+                      'mname': rng.choice(allnames + [149]) if rng.random() < 0.7 else None})
+    for name in ('sr_document.dcm', 'sr_document_with_multiple_groups.dcm'):
+        cases.append({'kind': 'acc_meas_tree', 'file': name, 'seed': rng.randint(0, 10 ** 6)})
     return cases
 
 
@@ -1313,6 +1428,30 @@ def _mk_meas_opts(g, j, C):
     return kw
 
 
+def _mk_measurement(g, j, n, v, C):
+    """the j-th measurement of a group: with its full details (acc_meas: unit, qualifier, ...), else in millimeter
+    with the options of report_opts"""
+    from highdicom import sr
+    from pydicom.sr.codedict import codes
+    md = g.get('md')
+    if not md:
+        return sr.Measurement(name=C(n), value=_pv(v), unit=codes.UCUM.Millimeter, **_mk_meas_opts(g, j, C))
+    d, kw = md[j], {}
+    if d['qual'] is not None:
+        kw['qualifier'] = C(d['qual'])
+    if d['track']:
+        kw['tracking_identifier'] = sr.TrackingIdentifier(uid=tuid_str(d['track'][1]), identifier=f"t{d['track'][0]}")
+    if d['method'] is not None:
+        kw['method'] = C(d['method'])
+    if d['deriv'] is not None:
+        kw['derivation'] = C(d['deriv'])
+    if d['sites']:
+        kw['finding_sites'] = [sr.FindingSite(C(z)) for z in d['sites']]
+    if d['imgs']:
+        kw['referenced_images'] = [sr.SourceImageForMeasurement(CLASSES[c], inst_str(i)) for c, i in d['imgs']]
+    return sr.Measurement(name=C(n), value=_pv(v), unit=C(d['unit']), **kw)
+
+
 def _build_group(g, hd_codes):
     from highdicom import sr
     from pydicom.sr.codedict import codes
@@ -1325,8 +1464,7 @@ def _build_group(g, hd_codes):
         finding_sites=[sr.FindingSite(C(s)) for s in g['sites']] or None,
         session=None if g['session'] is None else f"s{g['session']}",
         time_point_context=None if g['tp'] is None else sr.TimePointContext(time_point='tp', time_point_type=C(g['tp'])),
-        measurements=[sr.Measurement(name=C(n), value=_pv(v), unit=codes.UCUM.Millimeter, **_mk_meas_opts(g, j, C))
-                      for j, (n, v) in enumerate(g['meas'])] or None,
+        measurements=[_mk_measurement(g, j, n, v, C) for j, (n, v) in enumerate(g['meas'])] or None,
         qualitative_evaluations=[sr.QualitativeEvaluation(name=C(n), value=C(v)) for n, v in g['evals']] or None,
     )
     x = g.get('x') or {}
@@ -1476,6 +1614,8 @@ def _build_report(c):
         _apply_mutation(rep, m)
     for m in c.get('nmuts', []):
         _apply_num_mutation(rep, m)
+    for m in c.get('mmuts', []):
+        _apply_meas_mutation(rep, m)
     if c['io'] == 'mem':
         return rep
     if c['io'] == 'parsed':     # the in-memory object parsed again (copies every item)
@@ -1654,6 +1794,50 @@ def _apply_num_mutation(rep, m):
         mv.FloatingPointValue = float(_pv(other))
     if name == 'add_fd':
         mv.FloatingPointValue = float(mv.NumericValue)
+
+
+def _apply_meas_mutation(rep, m):
+    """the attributes and the child content of NUM items as other writers leave them (in memory): qualifier dropped /
+    set / replaced, another unit, child content dropped, a further derivation / method / finding site item (in front
+    or behind), a second NUM item of the same name with another qualifier"""
+    import random
+    from highdicom import sr
+    from highdicom.sr import ContentSequence
+    name, gi, mi, seed = m
+    rng = random.Random(seed)
+    grp = _groups_container(rep).ContentSequence[gi]
+    nums = [it for it in grp.ContentSequence if it.ValueType == 'NUM']
+    if not nums:
+        return
+    it = nums[mi % len(nums)]
+    cc = lambda z: code_of(z, True)  # noqa: E731
+    if name == 'drop_qual':
+        if 'NumericValueQualifierCodeSequence' in it:
+            del it.NumericValueQualifierCodeSequence
+    elif name == 'set_qual':
+        it.NumericValueQualifierCodeSequence = [cc(_mcode(rng, [210, 211, 212]))]
+    elif name == 'set_unit':
+        it.MeasuredValueSequence[0].MeasurementUnitsCodeSequence = [cc(_mcode(rng, [200, 201, 202, 203]))]
+    elif name == 'drop_content':
+        if 'ContentSequence' in it:
+            del it.ContentSequence
+    elif name == 'add_child':
+        kids = list(it.ContentSequence) if 'ContentSequence' in it else []
+        # mostly a SECOND derivation / method / finding site item (the accessors take the first / all of them)
+        have = [z for z in (23, 8, 6) if any(k.ValueType == 'CODE' and k.name == code_of(z) for k in kids)]
+        z = rng.choice(have) if have and rng.random() < 0.7 else rng.choice([23, 8, 6, 151])
+        new = sr.CodeContentItem(name=code_of(z), value=code_of(rng.choice([111, 121, 131, 221])),
+                                 relationship_type='HAS CONCEPT MOD')
+        it.ContentSequence = ContentSequence([new] + kids if rng.random() < 0.5 else kids + [new])
+    elif name == 'dup_num':
+        new = copy.deepcopy(it)
+        if rng.random() < 0.7:
+            new.NumericValueQualifierCodeSequence = [cc(_mcode(rng, [210, 211, 212]))]
+        elif 'NumericValueQualifierCodeSequence' in new:
+            del new.NumericValueQualifierCodeSequence
+        items = [x for x in grp.ContentSequence]
+        pos = rng.choice([len(items), items.index(it)])
+        grp.ContentSequence = ContentSequence(items[:pos] + [new] + items[pos:])
 
 
 def _num_shadow(c):
@@ -1929,6 +2113,77 @@ def _accessors_tree(g, K, mname_code, ename_code, ids):
     return out + [catch(vroi), catch(seg)]
 
 
+def _meas_obs(m, cid, ids):
+    """one sr.Measurement returned by get_measurements, shaped like C16_Model.meas_val: name, value, unit, qualifier,
+    derivation, method, finding sites, referenced images - each through the accessor of the class - and the child
+    content of its NUM item, item by item (concept name, value type, relationship, values)"""
+    oc = lambda c: None if c is None else cid(c)  # noqa: E731
+    it = m[0]
+    kids = list(it.ContentSequence) if 'ContentSequence' in it else []
+    content = []
+    for k in kids:
+        name, vt, rl, a, b = _item_fields(ids, k)
+        content.append([name, VT_TAG.get(vt, 9), RT_TAG[rl], a, b])
+    return [cid(m.name), vkey(m.value), cid(m.unit), oc(m.qualifier), oc(m.derivation), oc(m.method),
+            [cid(s.value) for s in m.finding_sites],
+            [[ids.uid(x.referenced_sop_class_uid), ids.uid(x.referenced_sop_instance_uid)] for x in m.referenced_images],
+            content]
+
+
+def _run_meas(rep, filters, mname_code, cid, ids, fo):
+    """for every filter set and every query: [tracking identifier, get_measurements(), get_measurements(name)] of each
+    returned group, every measurement in full (shape of C16_Model.run_tree_meas)"""
+    out = []
+    for f in filters:
+        row = []
+        for K in 'PVI':
+            fn = {'P': rep.get_planar_roi_measurement_groups, 'V': rep.get_volumetric_roi_measurement_groups,
+                  'I': rep.get_image_measurement_groups}[K]
+
+            def one(g):
+                t = g.tracking_identifier
+                return [None if t is None else ids.text(t),
+                        catch(lambda: [_meas_obs(m, cid, ids) for m in g.get_measurements()]),
+                        catch(lambda: [_meas_obs(m, cid, ids) for m in g.get_measurements(name=mname_code)])]
+            row.append(catch(lambda: [one(g) for g in fn(**_py_filter(f, K, fo['hd'], fo['srt'], fo['alt']))]))
+        out.append(row)
+    return out
+
+
+def _run_meas_tree(c):
+    """acc_meas_tree: NUM items rewritten in memory / a shipped document -> (observation, model term on the rendered
+    tree).  The tree is rendered first so that foreign codes, uids and texts are numbered in document order."""
+    import random
+    import synth
+    from highdicom import sr
+    from pydicom.sr.coding import Code
+    common.import_highdicom()
+    ids = _Ids()
+    if 'file' in c:
+        rng = random.Random(c['seed'])
+        rep = sr.srread(os.path.join(synth.TEST_FILES, c['file'])).content
+        root = render_item(ids, rep[0], 4)
+        names = [it.ConceptNameCodeSequence[0] for im in rep[0].ContentSequence if im.ValueType == 'CONTAINER'
+                 for grp in im.get('ContentSequence', []) for it in grp.get('ContentSequence', []) if it.ValueType == 'NUM']
+        mc = mz = None
+        if names and rng.random() < 0.8:
+            v = rng.choice(names)
+            cv = v.get('CodeValue') or v.get('LongCodeValue') or v.get('URNCodeValue')
+            mc = Code(str(cv), str(v.CodingSchemeDesignator), str(v.CodeMeaning), v.get('CodingSchemeVersion') or None)
+            mz = ids.code(str(cv), str(v.CodingSchemeDesignator), v.get('CodingSchemeVersion'))
+        filters = [{}]
+    else:
+        mem = _build_report(dict(c, io='mem'))
+        root = render_item(ids, mem[0], 4)
+        rep = mem if c['io'] == 'mem' else sr.MeasurementReport.from_sequence(mem)
+        mz = c['mname']
+        mc = None if mz is None else code_of(mz)
+        filters = c['filters']
+    out = _run_meas(rep, filters, mc, _TreeIds(ids).codeobj, ids, {'hd': False, 'srt': False, 'alt': False})
+    fs = '; '.join(f'run_tree_meas root {_coq_filter(f)} {ocz(mz)}' for f in filters)
+    return out, f'(let root := {root} in VL [{fs}])'
+
+
 def _run_acc_tree(rep, mname_code, ename_code, ids):
     out = []
     for K, fn in (('P', rep.get_planar_roi_measurement_groups), ('V', rep.get_volumetric_roi_measurement_groups),
@@ -1977,6 +2232,13 @@ def run_impl(c):
         return _run_fixture_acc(c)[0]
     if k == 'construct':
         return [_run_construct(it) for it in c['items']]
+    if k == 'acc_meas_tree':
+        return _run_meas_tree(c)[0]
+    if k == 'acc_meas':
+        rep = _build_report(c)
+        fo = _fopts(c)
+        return _run_meas(rep, c['filters'], None if c['mname'] is None else code_of(c['mname'], fo['hd'], fo['srt'], fo['alt']),
+                         lambda x: code_id(x, fo['hd']), _Ids(), fo)
     if k in ('acc_tree', 'acc_opts', 'acc_num_tree'):
         rep = _build_report(c)
         return _run_acc_tree(rep, None if c['mname'] is None else code_of(c['mname']),
@@ -2054,6 +2316,12 @@ def _coq_group(g):
             f"{ocz(g['geom'])} {ocz(g['tp'])} {oz(g['session'])} {'true' if g['has_tid'] else 'false'})")
 
 
+def _coq_mrec(n, v, d):
+    tr = 'None' if not d['track'] else f"(Some ({d['track'][0]}, {d['track'][1]}))"
+    return (f"MRec {cz(n)} {zlit(_vk(v))} {cz(d['unit'])} {ocz(d['qual'])} {tr} {ocz(d['method'])} {ocz(d['deriv'])} "
+            f"[{'; '.join(cz(x) for x in d['sites'])}] [{'; '.join(f'({a}, {b})' for a, b in d['imgs'])}]")
+
+
 def _coq_filter(f):
     gt = 'GNone'
     if 'gt' in f:
@@ -2108,11 +2376,12 @@ def _code_item_ids(ids, seq_item):
     return ids.code(str(v), str(seq_item.CodingSchemeDesignator), seq_item.get('CodingSchemeVersion'))
 
 
-def render_item(ids, ds, depth):
-    """raw pydicom view of one content item -> Coq term `Item ...` (children down to `depth`)"""
+def _item_fields(ids, ds):
+    """raw pydicom view of one content item -> (concept name, value type, relationship type, v1, v2) as the item
+    model carries them"""
     name = _code_item_ids(ids, ds.ConceptNameCodeSequence[0]) if 'ConceptNameCodeSequence' in ds else 0
     vt = str(ds.ValueType)
-    rl = RT[ds.get('RelationshipType', None)]
+    rl = ds.get('RelationshipType', None)
     a = b = 0
     if vt == 'CODE':
         a = _code_item_ids(ids, ds.ConceptCodeSequence[0])
@@ -2133,13 +2402,39 @@ def render_item(ids, ds, depth):
         a = [k for k, v in G2.items() if v == ds.GraphicType][0]
     elif vt == 'SCOORD3D':
         a = [k for k, v in G3.items() if v == ds.GraphicType][0]
+    return name, vt, rl, a, b
+
+
+def _num_attr_ids(ids, ds):
+    """(unit, qualifier) of a NUM item read from its raw attributes (None: absent): Measurement Units Code Sequence of
+    the Measured Value Sequence item, Numeric Value Qualifier Code Sequence (PS3.3 C.18.1)"""
+    mv = ds.get('MeasuredValueSequence') or []
+    unit = qual = None
+    if len(mv) and len(mv[0].get('MeasurementUnitsCodeSequence') or []):
+        unit = _code_item_ids(ids, mv[0].MeasurementUnitsCodeSequence[0])
+    if len(ds.get('NumericValueQualifierCodeSequence') or []):
+        qual = _code_item_ids(ids, ds.NumericValueQualifierCodeSequence[0])
+    return unit, qual
+
+
+def render_item(ids, ds, depth):
+    """raw pydicom view of one content item -> Coq term `Item ...` (children down to `depth`).  The unit and the
+    qualifier of a NUM item (attributes, not content items) are rendered as two pseudo children named UNIT_ATTR /
+    QUAL_ATTR in front of its child content (modelling device of C16_Model.v, `num_unit` / `num_qualifier`)"""
+    name, vt, rl, a, b = _item_fields(ids, ds)
     tmpl = 'None'
     if 'ContentTemplateSequence' in ds and len(ds.ContentTemplateSequence):
         tmpl = f'(Some {int(ds.ContentTemplateSequence[0].TemplateIdentifier)})'
     kids = []
+    if depth > 0 and vt == 'NUM':
+        unit, qual = _num_attr_ids(ids, ds)
+        if unit is not None:
+            kids.append(f'leaf {UNIT_ATTR} CODE RNone {cz(unit)} 0')
+        if qual is not None:
+            kids.append(f'leaf {QUAL_ATTR} CODE RNone {cz(qual)} 0')
     if depth > 0 and 'ContentSequence' in ds:
-        kids = [render_item(ids, k, depth - 1) for k in ds.ContentSequence]
-    return f"(Item {zlit(name)} {VT.get(vt, 'PNAME')} {rl} {zlit(a)} {zlit(b)} {tmpl} [{'; '.join(kids)}])"
+        kids += [render_item(ids, k, depth - 1) for k in ds.ContentSequence]
+    return f"(Item {zlit(name)} {VT.get(vt, 'PNAME')} {RT[rl]} {zlit(a)} {zlit(b)} {tmpl} [{'; '.join(kids)}])"
 
 
 def _tree_term(rep, filters):
@@ -2161,6 +2456,14 @@ def coq_term(c):
         common.import_highdicom()
         c2 = dict(c, io='mem')
         return _tree_term(_build_report(c2), c['filters'])
+    if k == 'acc_meas_tree':
+        return _run_meas_tree(c)[1]
+    if k == 'acc_meas':
+        gms = '[' + '; '.join(f"({_coq_group(g)}, [{'; '.join(_coq_mrec(n, v, d) for (n, v), d in zip(g['meas'], g['md']))}])"
+                              for g in c['groups']) + ']'
+        pre = PRE_ITEMS if c.get('pre') == 'library' else '[]'
+        fs = '; '.join(f"run_meas pre gms {_coq_filter(f)} {ocz(c['mname'])}" for f in c['filters'])
+        return f'(let gms := {gms} in let pre := {pre} in VL [{fs}])'
     if k in ('acc_tree', 'acc_opts', 'acc_num_tree'):
         common.import_highdicom()
         root = render_item(_Ids(), _build_report(dict(c, io='mem'))[0], 4)
@@ -2569,8 +2872,145 @@ def _check_num_tree(c, out):
     return None
 
 
+MEAS_FIELDS = ['name', 'value', 'unit', 'qualifier', 'derivation', 'method', 'finding_sites', 'referenced_images']
+
+
+def _meas_expect(n, v, d):
+    """what a measurement constructed as (n, v, d) must report: the eight accessor values + its child content as a
+    multiset (TID 300: tracking identifier and uid HAS OBS CONTEXT, method / derivation / finding sites HAS CONCEPT
+    MOD, referenced images INFERRED FROM)"""
+    content = []
+    if d['track']:
+        content += [[3, VT_TAG['TEXT'], RT_TAG['HAS OBS CONTEXT'], d['track'][0], 0],
+                    [4, VT_TAG['UIDREF'], RT_TAG['HAS OBS CONTEXT'], d['track'][1], 0]]
+    if d['method'] is not None:
+        content.append([8, VT_TAG['CODE'], RT_TAG['HAS CONCEPT MOD'], d['method'], 0])
+    if d['deriv'] is not None:
+        content.append([23, VT_TAG['CODE'], RT_TAG['HAS CONCEPT MOD'], d['deriv'], 0])
+    content += [[6, VT_TAG['CODE'], RT_TAG['HAS CONCEPT MOD'], z, 0] for z in d['sites']]
+    content += [[24, VT_TAG['IMAGE'], RT_TAG['INFERRED FROM'], a, b] for a, b in d['imgs']]
+    return [n, _vk(v), d['unit'], d['qual'], d['deriv'], d['method'], d['sites'], d['imgs']], sorted(content)
+
+
+def _meas_diff(got, want, where):
+    """first difference between the measurements a group reports and the ones it was constructed with"""
+    if isinstance(got, Err):
+        return f'{where} raised {got}'
+    if len(got) != len(want):
+        return f'{where} returns {len(got)} measurements, the group was constructed with {len(want)}: {got}'
+    for j, (x, (w, wc)) in enumerate(zip(got, want)):
+        for nme, a, b in zip(MEAS_FIELDS, x[:8], w):
+            if a != b:
+                return (f'{where}[{j}].{nme} = {a}, but the measurement was constructed with {nme} = {b} '
+                        f'(reported {dict(zip(MEAS_FIELDS, x[:8]))})')
+        if sorted(x[8]) != wc:
+            return f'{where}[{j}]: child content {x[8]}, constructed with {wc}'
+    return None
+
+
+def _check_meas(c, out):
+    """acc_meas: every query returns exactly the groups of its kind that satisfy the filters (document order), and each
+    returned group reports, through get_measurements() and get_measurements(name), every measurement it was constructed
+    with: name, value, unit, QUALIFIER, derivation, method, finding sites, referenced images, child content"""
+    groups = c['groups']
+    by_id = {g['tid']: g for g in groups}
+    for f, row in zip(c['filters'], out):
+        for K, res in zip('PVI', row):
+            if _refused(K, f):
+                if not isinstance(res, Err):
+                    return f'filter {f} cannot apply to a {K} query but was accepted: {res}'
+                continue
+            if isinstance(res, Err):
+                return f'{K} query with applicable filter {f} raised {res}'
+            got = [a[0] for a in res]
+            want = [g['tid'] for g in groups if g['k'] == K and _sat(K, f, g)]
+            if got != want:
+                return (f'{K} query, filter {f}: returned {got}, groups of that kind satisfying the filter '
+                        f'(in document order): {want}')
+            for a in res:
+                g = by_id[a[0]]
+                exp = [_meas_expect(n, v, d) for (n, v), d in zip(g['meas'], g['md'])]
+                where = f"group {a[0]} from the {K} query with filter {f} (history of the report: {c['io']})"
+                msg = _meas_diff(a[1], exp, where + ': get_measurements()')
+                if msg is None:
+                    msg = _meas_diff(a[2], [e for e in exp if c['mname'] is None or e[0][0] == c['mname']],
+                                     where + f": get_measurements(name={c['mname']})")
+                if msg:
+                    return msg
+    return None
+
+
+def _raw_measurements(root, ids):
+    """independent walk over the raw data sets (pydicom only): tracking identifier -> per NUM item of that group
+    [name, unit, qualifier, number of child items, first derivation child, first method child, finding site children],
+    read from the attributes named in PS3.3 C.18.1 / C.17.3"""
+    table = {}
+    ims = [it for it in root.get('ContentSequence', []) if it.ValueType == 'CONTAINER' and
+           _code_item_ids(ids, it.ConceptNameCodeSequence[0]) == 2]
+    for grp in (ims[0].get('ContentSequence', []) if ims else []):
+        if grp.ValueType != 'CONTAINER' or _code_item_ids(ids, grp.ConceptNameCodeSequence[0]) != 1:
+            continue
+        t, rows = None, []
+        for it in grp.get('ContentSequence', []):
+            n = _code_item_ids(ids, it.ConceptNameCodeSequence[0])
+            if it.ValueType == 'TEXT' and n == 3 and t is None:
+                t = ids.text(it.TextValue)
+            if it.ValueType == 'NUM':
+                unit, qual = _num_attr_ids(ids, it)
+                kids = [(_code_item_ids(ids, k.ConceptNameCodeSequence[0]), k) for k in it.get('ContentSequence', [])]
+                codes_of = lambda z: [_code_item_ids(ids, k.ConceptCodeSequence[0]) for m, k in kids  # noqa: E731
+                                      if m == z and k.ValueType == 'CODE']
+                # derivation / method: the FIRST child of that name; finding sites: all of them, in order
+                rows.append([n, unit, qual, len(kids), (codes_of(23) + [None])[0], (codes_of(8) + [None])[0], codes_of(6)])
+        table.setdefault(t, []).append(rows)
+    return table
+
+
+def _check_meas_tree(c, out):
+    """acc_meas_tree (NUM items rewritten in memory, shipped documents): whatever a query returns, each returned group
+    reports one measurement per NUM item of the group, in document order, with the name, the unit and the qualifier its
+    raw attributes say and with all its child items (raw walk, independent of the accessors and of the model)"""
+    import synth
+    from highdicom import sr
+    common.import_highdicom()
+    ids = _Ids()
+    if 'file' in c:
+        root = sr.srread(os.path.join(synth.TEST_FILES, c['file'])).content[0]
+        filters, mz = [{}], None        # (the by-name list is checked as a sub-list only)
+    else:
+        root = _build_report(dict(c, io='mem'))[0]
+        filters, mz = c['filters'], c['mname']
+    render_item(ids, root, 4)           # same numbering as the observation
+    table = _raw_measurements(root, ids)
+    for f, row in zip(filters, out):
+        for K, res in zip('PVI', row):
+            if isinstance(res, Err):
+                if not f:
+                    return f'unfiltered {K} query raised {res}'
+                continue
+            for a in res:
+                cands = table.get(a[0])
+                if not cands:
+                    return f'{K} query returned a group with tracking identifier {a[0]} that the document does not contain'
+                if isinstance(a[1], Err) or isinstance(a[2], Err):
+                    return f'group {a[0]}: get_measurements raised: {a[1:]}'
+                got = [[x[0], x[2], x[3], len(x[8]), x[4], x[5], x[6]] for x in a[1]]
+                if got not in cands:
+                    return (f'group {a[0]} ({K} query, filter {f}): get_measurements() reports [name, unit, qualifier, '
+                            f'number of child items, derivation, method, finding sites] = {got}; the NUM items of the '
+                            f'group carry {cands}')
+                sub = [x for x in a[1] if 'file' in c or mz is None or x[0] == mz]
+                if ('file' in c and [x for x in a[1] if x in a[2]] != a[2]) or ('file' not in c and a[2] != sub):
+                    return f'group {a[0]}: get_measurements(name) = {a[2]}, expected the measurements of that name among {a[1]}'
+    return None
+
+
 def oracle(c, out):
     k = c['kind']
+    if k == 'acc_meas':
+        return _check_meas(c, out)
+    if k == 'acc_meas_tree':
+        return _check_meas_tree(c, out)
     if k in ('report_mem', 'report_doc', 'report_file', 'report_notid', 'refuse', 'report_codes', 'report_opts'):
         return _check_queries(c, out)
     if k in ('acc', 'acc_codes', 'acc_values'):
@@ -2627,6 +3067,14 @@ def oracle(c, out):
 
 def nontrivial(c, out):
     k = c['kind']
+    if k == 'acc_meas':       # some returned measurement carries a qualifier, and some filter removes a group
+        rows = [a for row in out for r in row if not isinstance(r, Err) for a in r]
+        return (any(x[3] is not None for a in rows if not isinstance(a[1], Err) for x in a[1]) and
+                any(not isinstance(r, Err) and len(r) < sum(g['k'] == K for g in c['groups'])
+                    for row in out for K, r in zip('PVI', row)))
+    if k == 'acc_meas_tree':
+        rows = [a for row in out for r in row if not isinstance(r, Err) for a in r]
+        return 'file' in c or any(x[3] is not None for a in rows if not isinstance(a[1], Err) for x in a[1])
     if k in ('acc', 'acc_codes'):
         return len(c['groups']) >= 2
     if k == 'acc_values':     # some value does not survive as a DS string and the report was encoded
@@ -2660,6 +3108,28 @@ def shrink(c):
         return
     if 'groups' not in c:
         return
+    if 'mmuts' in c:          # the mutations address groups / measurements by position: only they and the filters shrink
+        for i in range(len(c['mmuts'])):
+            yield dict(c, mmuts=c['mmuts'][:i] + c['mmuts'][i + 1:])
+        if len(c['filters']) > 1:
+            for f in c['filters']:
+                yield dict(c, filters=[f])
+        if c.get('io') != 'mem':
+            yield dict(c, io='mem')
+        return
+    if c.get('kind') == 'acc_meas':     # measurements and their details first (md runs parallel to meas)
+        for i, g in enumerate(c['groups']):
+            for j in range(len(g['meas'])):
+                if len(g['meas']) > 1:
+                    g2 = dict(g, meas=g['meas'][:j] + g['meas'][j + 1:], md=g['md'][:j] + g['md'][j + 1:])
+                    yield dict(c, groups=c['groups'][:i] + [g2] + c['groups'][i + 1:])
+                d = g['md'][j]
+                for key, empty in (('track', None), ('method', None), ('deriv', None), ('sites', []), ('imgs', [])):
+                    if d[key] != empty:
+                        g2 = dict(g, md=g['md'][:j] + [dict(d, **{key: empty})] + g['md'][j + 1:])
+                        yield dict(c, groups=c['groups'][:i] + [g2] + c['groups'][i + 1:])
+        if c.get('mname') is not None:
+            yield dict(c, mname=None)
     if 'nmuts' in c:          # the mutations address groups / measurements by position: only they are shrunk
         for i in range(len(c['nmuts'])):
             if len(c['nmuts']) > 1:
@@ -2694,7 +3164,7 @@ def shrink(c):
     for i, g in enumerate(c['groups']):
         for key, empty in (('sites', []), ('meas', []), ('evals', []), ('cat', None), ('method', None),
                            ('geom', None), ('tp', None), ('session', None), ('finding', None)):
-            if g[key] != empty:
+            if g[key] != empty and not (key == 'meas' and g.get('md')):
                 g2 = dict(g, **{key: empty})
                 yield dict(c, groups=c['groups'][:i] + [g2] + c['groups'][i + 1:])
     if 'filters' in c and len(c['filters']) == 1:
